@@ -3,6 +3,7 @@ truncation / extension / single-bit corruption under CRC / dangling, backward, s
 import base64
 
 from ..gen import cells as G
+from ..translate import bocheader
 
 SPEC = dict(
     manifest=dict(
@@ -17,28 +18,51 @@ SPEC = dict(
              'ANY single bit, for every message length (CRC-32C bit step is linear with trivial kernel; magic flips: the magics differ in every '
              'byte; CRC-flag flip: length fields), and after any non-zero error pattern inside one byte other than the flag byte; '
              '(4) c05_bad_refs: a record with a reference >= cells or <= its own position makes the parse fail. '
-             'The model is tied to the library by differential correspondence on conforming encodings from two independent encoders '
+             'TIE TO THE SOURCE, header parser: c05_src_header - the Lean function Generated.BocHeader.header is REGENERATED ON EVERY RUN from the text of '
+             'Boc.deserialize_boc_header (deserialize.py), utils.bytes_to_uint and the three magic constants by the bytes-program translator '
+             '(harness/translate/pybytes.py: len, index with IndexError, slices, big-endian numbers, the result dict as a record, if/elif/else, raise, '
+             'range comprehensions with the zero-step ValueError), and Lean proves FOR ALL byte lists that it equals the hand model\'s header parser: '
+             'same accept/reject decision and same has_idx, hash_crc32, has_cache_bits, flags, size_bytes, offset_bytes, cells_num, roots_num, absent_num, '
+             'tot_cells_size, root_list, index, cells_data, including the CRC comparison and the trailing-bytes check. A change of any line of that '
+             'function therefore breaks a proof obligation (the check then evaluates both functions in Lean on boundary bags and their corruptions and '
+             'runs the conformance / rejection oracle on the differing inputs to produce a concrete replay) instead of having to be hit by a sample. '
+             'TIE TO THE SOURCE, first part of the cell record reader: c05_src_cell_layout - the statements of Boc.deserialize_cell before the data bits are '
+             'read (d1/d2 decoding, absent marker, popcount(level mask)+1 stored hashes and depths, the length check) are regenerated the same way and '
+             'proved equal, for all byte lists and index widths, to the first part of the hand model\'s deserializeCell, which is proved to be that part '
+             'followed by the rest. '
+             'The translator itself is validated on every change: Lean evaluation of the regenerated functions = CPython on ~350 structured header byte '
+             'strings and ~275 cell records. '
+             'TIE TO THE SOURCE, rest (second part of deserialize_cell: data bits, completion tag, exotic type byte, reference indices; the three loops of '
+             'deserialize; Boc.__init__): hand model + differential correspondence on '
+             'conforming encodings from two independent encoders '
              '(Lean spec encoder through the driver, Python transcription in the harness), on every truncation/extension, all single-bit flips, '
              'reference/root/magic corruptions and random byte mutations.',
-        level_note='Trusted: Lean kernel (propext, Classical.choice, Quot.sound); Model/BocParse.lean as a faithful hand transcription of '
+        level_note='Trusted: Lean kernel (propext, Classical.choice, Quot.sound); for the header parser: the bytes-program translator pybytes.py/pyarith.py '
+                   'and its reading of the Python built-ins (TonVerif/PyBytes.lean: slice, range, unpacking; natOfBE = int.from_bytes big), validated '
+                   'differentially against CPython whenever source, translator or output change; for the second part of deserialize_cell / deserialize / Boc.__init__: '
+                   'Model/BocParse.lean as a faithful hand transcription of '
                    'deserialize.py (sampled correspondence only: accept/reject and canonical root DAG listing on every generated input); '
                    'Spec/BocEncode.lean as a faithful reading of boc.tlb + the reference cell record layout; Model/Cell.lean for the constructor; '
                    'CRC theorem uses the translated crc32c (C18 tie). Input-form detection (hex/base64 text) is modelled for canonical texts only.',
-        technique='Lean 4 proof (hand model) + differential correspondence with the library',
+        technique='Lean 4 proof; header parser and first part of the cell reader regenerated from the source on every run and proved equal to the hand model for all inputs; '
+                  'rest: hand model + differential correspondence with the library',
     ),
+    translators=[('deserialize.py deserialize_boc_header + first part of deserialize_cell (+utils.bytes_to_uint, magics)->Generated/BocHeader.lean', bocheader.regenerate)],
     design_ref='DESIGN.md §6 C05',
     rule='DAGs (ordinary with sharing, exotic trees with pruned branches / Merkle cells / library cells, chains, 255..257-cell bags, cell data of '
          '255/256 bytes total) x freedoms drawn from the seed (magic, size min..4, off min..8, idx, crc, cache bits + per-cell flag, per-cell '
          'stored hashes, 1-3 roots, extra unreachable cells, random forward order); negative: every truncation point, 1-8 byte extensions, all '
          'single-bit flips of CRC-protected bags, reference rewrites (dangling/backward/self), root index >= cells, magic rewrites; '
          'distinct = distinct byte string; non-trivial = bag with >= 2 cells or non-empty data',
-    trusted_base=['Model/BocParse.lean mirrors deserialize_boc_header/deserialize_cell/deserialize/Boc.__init__ by hand',
+    trusted_base=['Model/BocParse.lean mirrors the second part of deserialize_cell, deserialize and Boc.__init__ by hand (deserialize_boc_header and the first part of deserialize_cell: regenerated + proved equal, c05_src_header / c05_src_cell_layout)',
+                  'harness/translate/pybytes.py + pyarith.py (Python bytes-program subset -> Lean) and TonVerif/PyBytes.lean (meaning of slice / range / unpacking)',
                   'Spec/BocEncode.lean transcribes boc.tlb and DataCell::serialize (with_hashes) by hand',
                   'Model/Cell.lean (constructor model, C01/C02) is reused for cls(bits, refs, type)',
                   'SHA-256 is an abstract parameter H in all theorems; CRC-32C is the translated library code (C18)'],
     assumptions=['bitarray frombytes / slicing / ba2int behave as modelled', 'bytes slicing never raises, indexing past the end raises',
                  'None children make the Cell constructor raise for every cell type',
-                 'correspondence is sampled differential testing of model vs library'],
+                 'correspondence is sampled differential testing of model vs library (everything except deserialize_boc_header and the first part of deserialize_cell)',
+                 'deserialize_boc_header is called with a bytes object; its exceptions are not distinguished (raise = none)'],
 )
 
 MAGIC = {'g': bytes.fromhex('b5ee9c72'), 'i': bytes.fromhex('68ff65f3'), 'c': bytes.fromhex('acc3a728')}
@@ -566,10 +590,113 @@ def tuned_tot(rng, target):
     return nodes
 
 
+# ----------------------------------------------------------------------------- search after a broken source obligation
+
+def boundary_inputs(rng):
+    """Conforming bags written with every constructor / flag / width combination, and their corruptions, each with the
+    oracle that judges it: [(tag, bytes, oracle(ctx))]."""
+    out = []
+    dags = [[(G.ORD, '10101010', ())],
+            [(G.ORD, '', ()), (G.ORD, G.rand_bits(rng, 13), (0,)), (G.ORD, G.rand_bits(rng, 24), (1, 0))],
+            [(G.ORD, format(k, '03b'), ()) for k in range(4)] + [(G.ORD, G.rand_bits(rng, 9), (0, 1, 2, 3))]]
+    for di, nodes in enumerate(dags):
+        spec = G.spec_dag(nodes)
+        n = len(nodes)
+        order = list(range(n - 1, -1, -1))
+        recs = listing(nodes, spec, order)
+        for magic in 'gic':
+            for size in (1, 2, 4):
+                for off in (1, 2, 8):
+                    combos = [(i, c, k) for i in (False, True) for c in (False, True) for k in ((False, True) if i else (False,))] \
+                        if magic == 'g' else [(True, False, False)]
+                    for idx, crc, cache in combos:
+                        roots_sets = [[n - 1]] + ([[n - 1, 0]] if magic == 'g' and n > 1 and size == 1 else [])
+                        for roots in roots_sets:
+                            fr = dict(magic=magic, size=size, off=off, idx=idx, crc=crc, cache=cache, store=[], cflags=[])
+                            case = dict(nodes=nodes, order=order, roots=roots, recs=recs, rpos=[order.index(r) for r in roots], fr=fr)
+                            data = py_encode(recs, case['rpos'], fr)
+                            tag = f'src-{magic}-{size}-{off}-{int(idx)}{int(crc)}{int(cache)}-d{di}r{len(roots)}'
+                            out.append((tag, data, lambda ctx, case=case, spec=spec, tag=tag: check_accept(ctx, case, spec, tag, use_lean_encoder=False)))
+                            with_crc = crc if magic == 'g' else magic == 'c'
+                            if di == 0 or (size == 1 and off == 1):
+                                inp = case_input(case, tag=tag, original=data.hex())
+                                for k in range(len(data)):
+                                    out.append((tag + f'-trunc{k}', data[:k],
+                                                lambda ctx, d=data[:k], k=k, inp=inp, m=magic, L=len(data): must_reject(
+                                                    ctx, d, f'trunc:{m}', f'truncated encoding ({k} of {L} bytes) accepted', inp)))
+                                for ext in (b'\x00', b'\xff\x00', bytes(4)):
+                                    out.append((tag + f'-ext{len(ext)}', data + ext,
+                                                lambda ctx, d=data + ext, inp=inp, m=magic, e=len(ext): must_reject(
+                                                    ctx, d, f'ext:{m}', f'encoding extended by {e} bytes accepted', inp)))
+                                if with_crc and di == 0 and size == 1:
+                                    for bit in range(8 * len(data)):
+                                        d = bytearray(data)
+                                        d[bit // 8] ^= 128 >> (bit % 8)
+                                        region = 'magic' if bit < 32 else 'flags' if bit < 48 else 'crc' if bit >= 8 * (len(data) - 4) else 'body'
+                                        out.append((tag + f'-flip{bit}', bytes(d),
+                                                    lambda ctx, d=bytes(d), bit=bit, inp=inp, region=region: must_reject(
+                                                        ctx, d, f'flip:{region}', f'CRC-protected encoding accepted after flipping bit {bit}', dict(inp, bit=bit))))
+    # stored hashes with every level mask, exotic cells, references of every width (first part of deserialize_cell)
+    for mask in range(1, 8):
+        k = G.popcount(mask)
+        nodes = [(G.PRUNED, G.pruned_bits(mask, [rng.randbytes(32) for _ in range(k)], [rng.randrange(1000) for _ in range(k)]), ()),
+                 (G.ORD, G.rand_bits(rng, 1 + mask), (0,)),
+                 (G.ORD, G.rand_bits(rng, 8 * (mask % 3)), (1, 0))]
+        spec = G.spec_dag(nodes)
+        order = [2, 1, 0]
+        recs = listing(nodes, spec, order)
+        for magic in 'gic':
+            for store in ([True, True, True], [False, True, False], []):
+                size = 1 + mask % 4
+                fr = dict(magic=magic, size=size, off=2 + mask % 3, idx=bool(mask % 2), crc=bool(mask & 2), cache=False, store=store, cflags=[])
+                case = dict(nodes=nodes, order=order, roots=[2], recs=recs, rpos=[0], fr=fr)
+                data = py_encode(recs, [0], fr)
+                tag = f'src-cell-mask{mask}-{magic}-{"".join(str(int(x)) for x in store) or "-"}'
+                out.append((tag, data, lambda ctx, case=case, spec=spec, tag=tag: check_accept(ctx, case, spec, tag, use_lean_encoder=False)))
+                if magic == 'g' and store and all(store):
+                    inp = case_input(case, tag=tag, original=data.hex())
+                    for k2 in range(len(data) - 80, len(data)):
+                        out.append((tag + f'-trunc{k2}', data[:k2],
+                                    lambda ctx, d=data[:k2], k2=k2, inp=inp, L=len(data): must_reject(
+                                        ctx, d, 'trunc:g', f'truncated encoding ({k2} of {L} bytes) accepted', inp)))
+    return out
+
+
+def cell_records(rng):
+    """boundary cell records for the Lean comparison of the first part of deserialize_cell"""
+    return [(d, sz) for _, d, sz in bocheader.cell_cases(rng)]
+
+
+def src_search(ctx):
+    """A c05_src_* obligation broke: evaluate, in Lean, the regenerated header parser against the hand model on boundary
+    bags and their corruptions; judge the differing inputs first (conformance / rejection oracle), then the whole grid."""
+    grid = boundary_inputs(ctx.rng)
+    seen = set()
+    uniq = []
+    for t in grid:
+        if t[1] not in seen:
+            seen.add(t[1])
+            uniq.append(t)
+    differing = {d for _, d in bocheader.diff_inputs(ctx, [(t, d) for t, d, _ in uniq])}
+    ctx.count('src-search-cell-records-differing', len(bocheader.diff_cells(ctx, cell_records(ctx.rng))))
+    ctx.count('src-search-grid', len(uniq))
+    ctx.count('src-search-differing', len(differing))
+    first = [t for t in uniq if t[1] in differing]
+    rest = [t for t in uniq if t[1] not in differing]
+    for tag, d, oracle in first + rest:
+        ctx.case(('src', d), nontrivial=False)
+        oracle(ctx)
+        if ctx.failures and tag.count('-') >= 0 and len(ctx.failures) >= 3:
+            break
+    return bool(ctx.failures)
+
+
 # ----------------------------------------------------------------------------- run
 
 def run(ctx):
     rng = ctx.rng
+    if ctx.search and src_search(ctx):
+        return
     hand_cases(ctx)
 
     n_pos = ctx.n(700, 4000)
@@ -630,6 +757,30 @@ def run(ctx):
                         case = dict(nodes=nodes, order=[0], roots=[0], recs=recs, rpos=[0], fr=fr)
                         ctx.count('tiny-wide')
                         check_accept(ctx, case, spec, f'tiny-{magic}-{size}-{off}')
+
+    # forests: several roots that share nothing, made of tiny cells, written with every size width - fewer references and
+    # fewer data bytes than any single-root bag can have (no "every cell but one is referenced" shortcut is valid)
+    tiny = ['', '1', '0', '11', '1010101', '00000000', '11111111', '101010101']
+    for k in (2, 3, 4, 6):
+        for trial in range(ctx.n(2, 10)):
+            bits = rng.sample(tiny, k) if trial else tiny[:k]
+            nodes = [(G.ORD, b, ()) for b in bits]
+            if trial % 2:
+                nodes.append((G.ORD, '', (0,)))
+            spec = G.spec_dag(nodes)
+            order = list(range(len(nodes)))
+            rng.shuffle(order)
+            order.sort(key=lambda i: -len(nodes[i][2]))          # the parent (if any) before its child
+            roots = [i for i in range(len(nodes)) if not any(i in nodes[j][2] for j in range(len(nodes)))]
+            rng.shuffle(roots)
+            recs = listing(nodes, spec, order)
+            pos = {nid: p_ for p_, nid in enumerate(order)}
+            for size in (1, 2, 3, 4):
+                for off in (1, rng.choice([2, 4, 8])):
+                    fr = dict(magic='g', size=size, off=off, idx=rng.random() < 0.5, crc=rng.random() < 0.5, cache=False, store=[], cflags=[])
+                    case = dict(nodes=nodes, order=order, roots=roots, recs=recs, rpos=[pos[r] for r in roots], fr=fr)
+                    ctx.count('forest-tiny')
+                    check_accept(ctx, case, spec, f'forest-{k}-{size}-{off}')
 
     # stored hashes with every level mask (pruned branch + ordinary ancestors inherit the mask)
     for mask in range(1, 8):
